@@ -46,6 +46,35 @@ Section manager.
   Theorem mgr_weight_mode answers : m_weighted (mgr_state order answers) = weight_mode (last_answer answers []).
   Proof. rewrite mgr_state_last. destruct (last_answer answers []); reflexivity. Qed.
 
+  (* refresh while endpoints are out: nobody out = the plain refresh; otherwise exactly the listed endpoints that are not
+     out are installed, and every selector kind routes only to those *)
+  Lemma mgr_refresh_h_nil m answer : mgr_refresh_h order [] m answer = mgr_refresh order m answer.
+  Proof.
+    unfold mgr_refresh_h, mgr_refresh. destruct (eps_eqb answer (m_raw m)); [reflexivity|]. destruct answer as [|x t]; [reflexivity|].
+    f_equal. f_equal. assert (H : forall l : list ep, filter (fun e => negb (is_down [] e)) l = l) by (unfold is_down; induction l as [|y l IH]; simpl in *; [reflexivity|f_equal; exact IH]).
+    apply H.
+  Qed.
+
+  Theorem mgr_refresh_h_installed down m answer : (forall l e, In e (order l) <-> In e l) ->
+    answer <> [] -> answer <> m_raw m -> forall e,
+    In e (m_eps (mgr_refresh_h order down m answer)) <-> In e answer /\ is_down down e = false.
+  Proof.
+    intros Hord Hne Hch e. unfold mgr_refresh_h. destruct (eps_eqb answer (m_raw m)) eqn:E; [apply eps_eqb_eq in E; contradiction|].
+    destruct answer as [|x t]; [contradiction|]. cbn [m_eps]. rewrite Hord, filter_In. destruct (is_down down e); cbn; intuition congruence.
+  Qed.
+
+  Theorem mgr_route_excludes_down down m answer k code e : (forall l e, In e (order l) <-> In e l) ->
+    answer <> [] -> answer <> m_raw m ->
+    mgr_route points (mgr_refresh_h order down m answer) k code = RSel e -> In e answer /\ is_down down e = false.
+  Proof.
+    intros Hord Hne Hch Hr. apply (mgr_refresh_h_installed down m answer Hord Hne Hch).
+    set (m' := mgr_refresh_h order down m answer) in *. unfold mgr_route in Hr.
+    pose proof (member points k (m_weighted m') [Refresh (m_eps m') 0 0] code 0 e) as Hm.
+    pose proof (state_after_snoc points k (m_weighted m') [] (Refresh (m_eps m') 0 0)) as Hs. cbn [app] in Hs.
+    change (state_after points k (m_weighted m') []) with sel0 in Hs. rewrite Hs in Hm.
+    specialize (Hm Hr). unfold set_of_history in Hm. cbn [fold_left set_step] in Hm. now apply refresh_eps_in.
+  Qed.
+
   (* consistent hashing: the same endpoints in the two final answers, in any order and whatever [order] does with them,
      as long as it keeps the elements *)
   Theorem mgr_conhash_same_set (U : list N -> Prop) : NoCollision points U -> (forall l e, In e (order l) <-> In e l) ->
